@@ -135,6 +135,25 @@ func runC06(c *kernel.Ctx) {
 	for s := 0; s < steps && !t.Exhausted(); s++ {
 		c.Step()
 		switch k := t.Choose(20); {
+		case k < 1 && len(w.msgs) < 400: // a burst of small messages on one channel: more than any internal buffer size
+			contract := contracts[t.Choose(2)]
+			lv := []string{lits[t.Choose(3)], lits[t.Choose(3)]}
+			n := t.Range(130, 200)
+			for i := 0; i < n; i++ {
+				w.seq++
+				payload := []byte(fmt.Sprintf("b#%d", w.seq))
+				m := message.New(w.ssid(contract, lv), []byte(model.Join(lv)), payload)
+				m.TTL = 600
+				id := append(message.ID(nil), m.ID...)
+				if err := w.st.Store(m); err != nil {
+					c.Failf("missing", "store-error", "Store failed: %v", err)
+				}
+				w.msgs = append(w.msgs, &c06Msg{id: id, contract: contract, levels: lv, payload: payload, ttl: 600, stored: time.Now(),
+					expires: time.Unix(id.Time(), 0).Add(600 * time.Second), seq: w.seq})
+			}
+			c.Logf("burst of %d on c%d %s", n, contract%7, model.Join(lv))
+			c.Probe("burst-over-128-messages")
+			lastQ.ok = false
 		case k < 9: // store
 			contract := contracts[t.Choose(2)]
 			d := t.Range(1, 3)
